@@ -1,9 +1,11 @@
 #!/bin/sh
-# tools/import_seed.sh <Cxx> : copy the two mutants a seeding agent left in /tmp/seed/<Cxx> into /verif/seeded/<Cxx>-{1,2}
-P="$1"
-for k in 1 2; do
+# tools/import_seed.sh <Cxx> [k ...] : copy the mutants a seeding agent left in /tmp/seed/<Cxx> into /verif/seeded/<Cxx>-<k> (default k = 1 2)
+P="$1"; shift
+KS="${*:-1 2}"
+for k in $KS; do
+  [ -f /tmp/seed/$P/mutant_$k.diff ] || { echo "missing /tmp/seed/$P/mutant_$k.diff"; continue; }
   d=/verif/seeded/$P-$k; mkdir -p "$d"
   cp /tmp/seed/$P/mutant_$k.diff "$d/patch.diff"; cp /tmp/seed/$P/demo_$k.py "$d/demo.py"; cp /tmp/seed/$P/meta_$k.json "$d/meta.json"
   sed -i "s#/tmp/seed/$P/src#src#g; s#/tmp/seed/$P#.#g" "$d/demo.py" 2>/dev/null
+  echo "imported $P-$k"
 done
-ls /verif/seeded/$P-1 /verif/seeded/$P-2
